@@ -33,14 +33,15 @@ func theKernel() (*pure.Kernel, error) {
 			}
 		}()
 		k := pure.NewKernel(&pure.OptionsKernel{TypesWhiteList: "*", TL2WhiteList: "*"})
+		var files []string
 		for _, f := range strings.Split(os.Getenv("VERIF_GEN_FILES"), ":") {
-			if f == "" {
-				continue
+			if f != "" {
+				files = append(files, f)
 			}
-			if err := k.AddFileTL1(f); err != nil {
-				kernelErr = err
-				return
-			}
+		}
+		if err := k.AddFilesFromPaths(files); err != nil { // .tl and .tl2 alike, as cmd/tl2client does
+			kernelErr = err
+			return
 		}
 		if err := k.Compile(); err != nil {
 			kernelErr = err
@@ -263,7 +264,7 @@ func checkC12(reg *Registry, c interpCase) pbt.Result {
 		return pbt.Result{Classes: []string{ir.Unsupported}}
 	}
 	if died != "" {
-		if gErr != nil && c.Source == "mutated" && strings.Contains(died, "memory") && pbt.Known("F31") && !pbt.Replaying() {
+		if gErr != nil && c.Source == "mutated" && (strings.Contains(died, "memory") || (strings.Contains(died, "no answer within") && isF5(gErr))) && pbt.Known("F31") && !pbt.Replaying() {
 			return pbt.Result{Excluded: "F31"}
 		}
 		return pbt.Fail("%s: the interpreter's %s reader died on %s (%s); generated reader: %v", c.Item, c.Format, hexHead(in), died, gErr)
